@@ -309,8 +309,9 @@ func (s *Scanner) addPos(p int) {
 
 func (s *Scanner) skipQuote(quote rune) error {
 	var (
-		pos     = s.pos
-		escaped = s.BackslashEscapes || s.EscapedStringExt && s.pos > 0 && (s.input[s.pos-1] == 'E' || s.input[s.pos-1] == 'e')
+		pos = s.pos
+		// Backslash is an escape character in string literals, but not in quoted (backtick) identifiers.
+		escaped = s.BackslashEscapes && quote != '`' || s.EscapedStringExt && s.pos > 0 && (s.input[s.pos-1] == 'E' || s.input[s.pos-1] == 'e')
 	)
 	for {
 		switch r := s.next(); {
